@@ -251,7 +251,7 @@ def replay_judge(result, recursive):
     return None
 
 
-def gen_history(r, n, allow_outside_ops=False, tree=None):
+def gen_history(r, n, allow_outside_ops=False, tree=None, no_replace=False):
     """mostly-valid operations: the generator keeps its own picture of the tree (W and O) and draws
     operations that are applicable in it (plus ~10% blind ones), inside the watched tree W and — less
     often — in the outside directory O, including what has been moved out of W and back"""
@@ -327,6 +327,8 @@ def gen_history(r, n, allow_outside_ops=False, tree=None):
                 dpar = r.choice(dds)
                 d_ = dpar + "/" + r.choice(NAMES)
                 if d_ == s_ or d_.startswith(s_ + "/") or dpar == s_ or dpar.startswith(s_ + "/"):
+                    continue
+                if d_ in tree and no_replace:
                     continue
                 if d_ in tree:
                     # replace: same kind, a directory only if empty
